@@ -562,11 +562,13 @@ class UrwidImageScreen(urwid.raw_display.Screen):
                         )
                     )
         else:
+            # Must come first; if the deletion is interrupted after the command has been
+            # written, the images still have to be redrawn.
+            UrwidImageCanvas._ti_change_disguise()
             if now:
                 write_tty(ctlseqs.KITTY_DELETE_ALL_b)
             else:
                 self.write(ctlseqs.KITTY_DELETE_ALL)
-            UrwidImageCanvas._ti_change_disguise()
 
     # `@lock_tty` prevents queries during a synced update.
     # Otherwise, responses would be delayed until the synced update ends and that might
